@@ -659,6 +659,94 @@ def connect_and_close_round(rounds=40):
     return obs
 
 
+def disable_races_reconnect_decision_round():
+    """An ACTIVE endpoint loses its link; its receiver thread decides to reconnect (reads `enabled`: True) - and right then the
+    application calls disable(), which finds no connect thread alive yet.  The connect thread is started afterwards.  The endpoint
+    must stay down.  Forced: `enabled` is a property of a subclass; the read inside _disconnected runs disable() to completion on
+    another thread before it returns what it read."""
+    import secsgem.common.tcp_connection
+    from secsgem.common.tcp_client_connection import TcpClientConnection
+    secsgem.common.tcp_connection.TcpConnection.select_timeout = 0.02
+    port = common.own_port(2)
+    lst = socket.socket()
+    lst.setsockopt(socket.SOL_SOCKET, socket.SO_REUSEADDR, 1)
+    lst.bind(("127.0.0.1", port))
+    lst.listen(4)
+    lst.settimeout(5)
+    state = {"armed": False, "fired": False}
+
+    class Racy(TcpClientConnection):
+        @property
+        def enabled(self):
+            value = self.__dict__.get("_enabled_value", False)
+            import sys
+            if state["armed"] and value and sys._getframe(1).f_code.co_name == "_disconnected":
+                state["armed"] = False
+                state["fired"] = True
+                th = threading.Thread(target=lambda: state.__setitem__("disable_returned", (proto.disable(), True)[1]), daemon=True)
+                th.start()
+                # until disable() has switched the flag off and looked for a connect thread (it then waits for this very thread to finish)
+                deadline = time.monotonic() + 5
+                while self.__dict__.get("_enabled_value") and time.monotonic() < deadline:
+                    time.sleep(0.002)
+                time.sleep(0.15)
+            return value
+
+        @enabled.setter
+        def enabled(self, value):
+            self.__dict__["_enabled_value"] = value
+
+    class RacySettings(secsgem.hsms.HsmsSettings):
+        def create_connection(self):
+            return Racy(self)
+
+    settings = RacySettings(address="127.0.0.1", port=port, connect_mode=secsgem.hsms.HsmsConnectMode.ACTIVE, device_id=0)
+    settings.timeouts.t5 = 1
+    proto = secsgem.hsms.HsmsProtocol(settings)
+    obs = {}
+    peers = []
+    try:
+        proto.enable()
+        try:
+            peer, _ = lst.accept()
+        except OSError:
+            obs["connected"] = False
+            return obs
+        obs["connected"] = True
+        time.sleep(0.2)
+        state["armed"] = True
+        peer.close()                                  # the link is lost: the receiver thread will decide to reconnect
+        deadline = time.monotonic() + 5
+        while not state["fired"] and time.monotonic() < deadline:
+            time.sleep(0.01)
+        obs["decision_hooked"] = state["fired"]
+        deadline = time.monotonic() + 10
+        while not state.get("disable_returned") and time.monotonic() < deadline:
+            time.sleep(0.01)
+        obs["disable_returned"] = bool(state.get("disable_returned"))
+        lst.settimeout(3.0)                           # T5 (1 s) and more: a disabled endpoint makes no attempt to connect
+        try:
+            again, _ = lst.accept()
+            peers.append(again)
+            obs["connected_again_after_disable"] = True
+        except OSError:
+            obs["connected_again_after_disable"] = False
+        obs["connect_threads_alive"] = len([t for t in threading.enumerate() if "connectThread" in t.name and t.is_alive()])
+        obs["state_afterwards"] = proto.connection_state.current.name
+    finally:
+        for p_ in peers:
+            try:
+                p_.close()
+            except OSError:
+                pass
+        lst.close()
+        try:
+            common.with_deadline(proto.disable, 5.0)
+        except Exception:  # noqa: BLE001
+            pass
+    return obs
+
+
 def queue_case(rnd, sizes, packet, writes):
     """one direct call of HsmsProtocol._process_send_queue (no thread is running): blocks of the given byte sizes are queued, the
     connection's send_data answers as scripted; returns the Coq literal: packet counts, the answers, how each block ended"""
@@ -915,6 +1003,10 @@ def run(tier, replay=None):
     scan_obs = common.guarded(lambda: connect_and_close_round(30 if tier == "quick" else 150), "a peer that connects and goes away at once, again and again", awedged, 120.0)
     if scan_obs is not None and not (scan_obs.get("probe_selected") and scan_obs.get("disable_returned") and scan_obs.get("refused_for_good_at_round") is None):
         report.violation({"kind": "counterexample", "what": "after peers that connected and went away at once the passive endpoint no longer accepts a connection / selects / disable() hangs", **scan_obs}, True, tag="connectclose")
+    rd_obs = common.guarded(disable_races_reconnect_decision_round, "disable() right after the decision to reconnect", awedged, 60.0)
+    if rd_obs is not None and rd_obs.get("connected") and rd_obs.get("decision_hooked") and (
+            rd_obs.get("connected_again_after_disable") or rd_obs.get("connect_threads_alive") or not rd_obs.get("disable_returned") or rd_obs.get("state_afterwards") != "NOT_CONNECTED"):
+        report.violation({"kind": "counterexample", "what": "disable() arrived between the decision to reconnect and the start of the connect thread: the disabled endpoint kept connecting", **rd_obs}, True, tag="reconnectrace")
     down_obs = common.guarded(active_disable_stays_down_round, "disable() of a connected active endpoint, then T5 passes", awedged, 60.0)
     if down_obs is not None and down_obs.get("connected") and not (down_obs.get("disable_returned") and down_obs.get("not_connected") and not down_obs.get("connected_again_after_disable")
                                                                    and down_obs.get("state_afterwards") == "NOT_CONNECTED"):
@@ -1006,6 +1098,7 @@ def run(tier, replay=None):
     cov["disable_while_connect_succeeds"] = race2_obs
     cov["active_disable_stays_down"] = down_obs
     cov["connect_and_close"] = scan_obs
+    cov["disable_races_reconnect_decision"] = rd_obs
     cov["handler_waits_for_reply_at_link_loss"] = cw_obs
     cov["disable_races_peer_close"] = race3_obs
     cov["stale_dispatch_queue"] = sd_obs
